@@ -708,6 +708,88 @@ fn run_embedder(ctx: &RunCtx) -> RunOut {
     out
 }
 
+/// The yield handle outlives the task: the task emits `k` items, parks its handle in a slot and
+/// returns; a helper (polled by the same driver) takes the handle, emits `m` more items and drops
+/// it. Every interleaving of {poll the stream, poll the helper} of the stated length is tried
+/// (schedule = the bits of a free choice), then both are polled alternately until the stream ends.
+/// Every emitted item must arrive, in order, before the single completion (seed C13-h).
+fn run_handle_outlives(_ctx: &RunCtx) -> RunOut {
+    use std::cell::RefCell;
+    use std::rc::Rc;
+    const LEN: usize = 8;
+    let k = choose("task_items", 3) as u32;
+    let m = choose("helper_items", 4) as u32;
+    let sched = choose("schedule", 1 << LEN);
+    let slot: Rc<RefCell<Option<Yield<u32>>>> = Rc::new(RefCell::new(None));
+    let slot2 = slot.clone();
+    let g = generate(move |mut co: Yield<u32>| async move {
+        for i in 0..k {
+            co.yield_(i).await;
+        }
+        *slot2.borrow_mut() = Some(co);
+        777u32
+    });
+    let mut g = Box::pin(g);
+    let helper = async move {
+        let mut co = loop {
+            let t = slot.borrow_mut().take();
+            if let Some(c) = t {
+                break c;
+            }
+            futures::pending!();
+        };
+        for i in 0..m {
+            co.yield_(k + i).await;
+        }
+        drop(co);
+    };
+    let mut helper = Box::pin(helper);
+    let mut helper_done = false;
+    let waker = futures::task::noop_waker();
+    let mut cx = Context::from_waker(&waker);
+    let mut got: Vec<String> = vec![];
+    let mut ended = false;
+    let mut step = |which: usize, got: &mut Vec<String>, ended: &mut bool, helper_done: &mut bool| {
+        if which == 0 {
+            if !*ended {
+                match g.as_mut().poll_next(&mut cx) {
+                    Poll::Ready(Some(GeneratorState::Yielded(x))) => got.push(format!("item {x}")),
+                    Poll::Ready(Some(GeneratorState::Complete(r))) => got.push(format!("complete {r}")),
+                    Poll::Ready(None) => *ended = true,
+                    Poll::Pending => {}
+                }
+            }
+        } else if !*helper_done {
+            if helper.as_mut().poll(&mut cx).is_ready() {
+                *helper_done = true;
+            }
+        }
+    };
+    for b in 0..LEN {
+        step((sched >> b) & 1, &mut got, &mut ended, &mut helper_done);
+    }
+    let mut rounds = 0;
+    while !ended && rounds < 64 {
+        step(1, &mut got, &mut ended, &mut helper_done);
+        step(0, &mut got, &mut ended, &mut helper_done);
+        rounds += 1;
+    }
+    let mut exp: Vec<String> = (0..k + m).map(|x| format!("item {x}")).collect();
+    exp.push("complete 777".into());
+    let mut out = RunOut::new(format!("k{k}-m{m}"), m > 0, hash64(&(k, m, sched, format!("{got:?}"))));
+    out.nt_evals = (m > 0) as u64;
+    if !ended {
+        return out.fail("stream did not end although the task returned and the handle was dropped", format!("k={k} m={m} schedule={sched:#b} got {got:?}"));
+    }
+    if got != exp {
+        return out.fail(
+            "items emitted through a handle that outlived the task were lost or arrived after the completion",
+            format!("k={k} m={m} schedule={sched:#b}: got {got:?}, expected {exp:?}"),
+        );
+    }
+    out
+}
+
 fn parts(tier: Tier) -> Vec<PartDef> {
     let gen = |name: &str, len: usize, d: usize| {
         PartDef::new(
@@ -728,6 +810,14 @@ fn parts(tier: Tier) -> Vec<PartDef> {
         json!({"progress_sequences": "0..3 values", "install": ["ok", "failed"], "installer_waits_for_last_acknowledgement": [true, false], "installer_reports": ["one after the other", "all at once (joined)"], "modes": ["oneshot", "start"], "blocking": "timers, http, plan, install, each progress, reboot",
                "scheduling": format!("at most {d} non-default choices (other completion order, delayed or spurious consumer poll)")}),
         move |ctx| run_sm(ctx, tier),
+    ));
+    v.push(PartDef::new(
+        "handle-outlives-task",
+        Cfg::new("C13/handle-outlives-task").dev(0).free(&["task_items", "helper_items", "schedule"]),
+        json!({"task": "emits 0-2 items, hands its yield handle to a helper and returns", "helper": "emits 0-3 further items through the handle, then drops it",
+               "schedules": "all 2^8 interleavings of {poll the stream, poll the helper}, then alternate polls until the stream ends",
+               "oracle": "all items in emission order, then exactly one completion, then stream end"}),
+        run_handle_outlives,
     ));
     v.push(PartDef::new(
         "embedder-sharing-storage-and-app-set",
